@@ -57,6 +57,10 @@ pub fn report_to_result(sc: &Scenario, rep: RunReport, restarted_only: bool) -> 
     r.add("probe_nan_in_result", s.nan_results);
     r.add("probe_extreme_coordinate_points", s.extreme_points);
     r.add("ops_exceeding_4x_reference_events", s.ops_over_ref_events);
+    r.add("ops_on_second_sampler", s.ops_on_second_sampler);
+    if sc.alt.is_some() {
+        r.add("runs_with_two_samplers", 1);
+    }
     r.add(&format!("sched_{:?}", sc.sched).to_lowercase(), 1);
     r.add(&format!("clients_{}", sc.clients.len()), 1);
     let nontrivial = if restarted_only {
